@@ -7,7 +7,10 @@
      cache  pdf_extractor._FONT_CACHE  (_ttf_get_glyph_features): glyph bounding boxes of an embedded
             TrueType program, computed ONLY for the glyph ids the caller asked for.  An entry is
             <<font, gids>>.  The digits that _patch_font_digit_map can resolve for a document using
-            font f with null-mapped glyph ids g are  g \cap (glyph ids of the entry that is hit).
+            font f with null-mapped glyph ids g are  g \cap (glyph ids of the entry that is hit); it
+            also writes a digit over every OTHER glyph of that entry (observation `cl`: glyphs the
+            document maps to real characters that were overwritten).  Every generated document shows
+            all glyphs of the universe, so both effects are observable.
      aes    _pypdf_aes_fallback.patch_pypdf_fallback_aes: pypdf's fallback-provider AES functions
             replaced by the library's pure-Python AES.  Applied by _open_pdf_reader when PdfReader()
             raises DependencyError("... AES algorithm") (AES-256 / V5 documents: the key check already
@@ -26,6 +29,12 @@
    Deviations (named wrong steps of the as-built code; {} = reference design):
      "FontCacheKeyedByFontOnly"  cache hit on the font bytes alone: a later document with the same
                                  font but other glyph ids gets the first caller's glyph set
+                                 (the pinned tree; repaired in /repo by 9c30dc7)
+     "FontCacheSupersetReuse"    cache keyed by the font bytes; an entry is reused when it covers every
+                                 requested glyph id, otherwise recomputed and replaced: a document whose
+                                 null-mapped glyphs are a strict subset of an earlier one's gets the larger
+                                 feature set and its properly mapped glyphs are overwritten with digits
+                                 (sensitivity only)
      "PermanentAesPatch"         the AES patch stays installed after the extraction that triggered it
                                  (open finding KF-C15-01: residue only, once the next one is off)
      "AesPatchOnlyOnOpenFailure" the patch is installed only when PdfReader() itself fails, so an "aesU"
@@ -42,7 +51,8 @@ EXTENDS Naturals, Sequences, FiniteSets, TLC, Json, IOUtils, TLCExt
 
 CONSTANTS Deviations, Fonts, GidSets, MaxLen
 
-DeviationNames == {"FontCacheKeyedByFontOnly", "PermanentAesPatch", "AesPatchOnlyOnOpenFailure"}
+DeviationNames == {"FontCacheKeyedByFontOnly", "FontCacheSupersetReuse", "PermanentAesPatch",
+                   "AesPatchOnlyOnOpenFailure"}
 ASSUME Deviations \subseteq DeviationNames
 
 \* every document is a record of one shape (TLC cannot mix strings and tuples in a set)
@@ -57,24 +67,30 @@ gvars == <<cache, aes, hist, obs, tid, l>>
 
 -----------------------------------------------------------------------------
 (* one extraction as a function of the global state: [out, gl, cache, aes] *)
+KeyedByFont == Deviations \cap {"FontCacheKeyedByFontOnly", "FontCacheSupersetReuse"} # {}
 Hit(c, f, g) ==
-    IF "FontCacheKeyedByFontOnly" \in Deviations
-    THEN { e \in c : e[1] = f }
+    IF "FontCacheSupersetReuse" \in Deviations THEN { e \in c : e[1] = f /\ g \subseteq e[2] }
+    ELSE IF "FontCacheKeyedByFontOnly" \in Deviations THEN { e \in c : e[1] = f }
     ELSE { e \in c : e[1] = f /\ e[2] = g }
+Store(c, f, g) == IF KeyedByFont THEN { e \in c : e[1] # f } \cup {<<f, g>>} ELSE c \cup {<<f, g>>}
 
+\* gl: null-mapped glyphs resolved to digits = those the feature set used covers
+\* cl: properly mapped glyphs of the document overwritten with a digit = the surplus of that feature set
+\*     (_patch_font_digit_map writes a digit for EVERY glyph of the features it is given)
 Extract(d, c, a) ==
     IF IsFont(d) THEN
         LET f == d.f  g == d.g  h == Hit(c, f, g) IN
-        IF h = {} THEN [out |-> "ok", gl |-> g, cache |-> c \cup {<<f, g>>}, aes |-> a]
-        ELSE [out |-> "ok", gl |-> g \cap (CHOOSE e \in h : TRUE)[2], cache |-> c, aes |-> a]
+        IF h = {} THEN [out |-> "ok", gl |-> g, cl |-> {}, cache |-> Store(c, f, g), aes |-> a]
+        ELSE LET e == CHOOSE x \in h : TRUE IN
+             [out |-> "ok", gl |-> g \cap e[2], cl |-> e[2] \ g, cache |-> c, aes |-> a]
     ELSE IF d.k = "aesT" \/ (d.k = "aesU" /\ "AesPatchOnlyOnOpenFailure" \notin Deviations) THEN
-        [out |-> "ok", gl |-> {}, cache |-> c,                  \* patch installed for this extraction ...
+        [out |-> "ok", gl |-> {}, cl |-> {}, cache |-> c,       \* patch installed for this extraction ...
          aes |-> IF "PermanentAesPatch" \in Deviations THEN TRUE ELSE a]      \* ... and (reference) removed again
     ELSE IF d.k = "aesU" THEN
-        [out |-> IF a THEN "ok" ELSE "fail", gl |-> {}, cache |-> c, aes |-> a]
-    ELSE [out |-> "same", gl |-> {}, cache |-> c, aes |-> a]
+        [out |-> IF a THEN "ok" ELSE "fail", gl |-> {}, cl |-> {}, cache |-> c, aes |-> a]
+    ELSE [out |-> "same", gl |-> {}, cl |-> {}, cache |-> c, aes |-> a]
 
-Observation(r) == [out |-> r.out, gl |-> r.gl]
+Observation(r) == [out |-> r.out, gl |-> r.gl, cl |-> r.cl]
 Isolated(d)    == Observation(Extract(d, {}, FALSE))          \* fresh process
 
 Init == cache = {} /\ aes = FALSE /\ hist = <<>> /\ obs = <<>> /\ tid = 0 /\ l = 0
@@ -87,12 +103,12 @@ Spec == Init /\ [][Next]_gvars
 HistoryIndependent == \A i \in 1..Len(hist) : obs[i] = Isolated(hist[i])
 ResidueFree        == aes = FALSE
 \* at most one entry per key: the font-only cache never holds two entries of one font
-CacheShape         == ("FontCacheKeyedByFontOnly" \in Deviations) =>
+CacheShape         == KeyedByFont =>
                           \A e1, e2 \in cache : e1[1] = e2[1] => e1 = e2
 
 -----------------------------------------------------------------------------
 (* code -> spec: recorded histories (mbv/props/c15.py history workers).  Events:
-     {"a":"Extract","d":<class>,"f":font|"","g":[gids],"out":"ok"|"fail"|"same"|<other>,"gl":[resolved gids],"same":bool}
+     {"a":"Extract","d":<class>,"f":font|"","g":[gids],"out":"ok"|"fail"|"same"|<other>,"gl":[resolved gids],"cl":[clobbered gids],"same":bool}
           d in "plain" | "aesT" | "aesU" | "font";   `same`: to_json digest equals the isolated baseline
           for "plain" the harness reports out = "same" iff the digest (or the exception) equals the baseline
      {"a":"Residue","aesfn":bool,"fns":bool,"cfg":bool,"tmp":bool,"fds":bool}   each: unchanged w.r.t. process start
@@ -115,6 +131,7 @@ TraceExtract ==
           \/ /\ d.k \in {"aesT", "aesU"}                  \* DON'T-CARE: whether an AES document can be read at
              /\ "AesPatchOnlyOnOpenFailure" \notin Deviations \* all (C08); only `same` (equal to isolation) counts
        /\ Range(Ev.gl) = r.gl
+       /\ Range(Ev.cl) = r.cl
        /\ (Observation(r) = Isolated(d)) => Ev.same       \* DON'T-CARE once the modelled part deviates
        /\ cache' = r.cache /\ aes' = r.aes
        /\ hist' = Append(hist, d) /\ obs' = Append(obs, Observation(r))
